@@ -21,6 +21,7 @@ type c02Args struct {
 	YieldSeed  uint64    `json:"yield_seed"`
 	Burst      int       `json:"burst,omitempty"`
 	BurstTypes []string  `json:"burst_types,omitempty"`
+	BurstKind  string    `json:"burst_kind,omitempty"`
 }
 
 type c02Ev struct {
@@ -93,7 +94,7 @@ func init() {
 	register(&Property{
 		ID:    "C02",
 		Level: "exploration",
-		Rule: "concurrent API histories of <= 14 operations on one real stream: 1-3 writer goroutines (Open ... SetDataType(name) ... Close, some opened before the start as createProcess does) racing with 1-3 reader goroutines (GetDataType, ForceClose); type names from \"\", null, *, json, str and random identifiers; hook yields inside the GetDataType poll loop and SetDataType; plus tight-race bursts (250 trials per case: 2-3 writers released together from a spin barrier, each declaring a different type and closing, against a reader polling GetDataType); every call recorded with logical call/return stamps at the API boundary; " +
+		Rule: "concurrent API histories of <= 14 operations on one real stream: 1-3 writer goroutines (Open ... SetDataType(name) ... Close, some opened before the start as createProcess does) racing with 1-3 reader goroutines (GetDataType, ForceClose); type names from \"\", null, *, json, str and random identifiers; hook yields inside the GetDataType poll loop and SetDataType; plus tight-race bursts (250 trials per case: 2-3 writers released together from a spin barrier, each declaring a different type and closing, against a reader polling GetDataType; and 60 trials per case in which the type is declared, the stream force closed and a reader polls GetDataType 20000 times while six goroutines keep calling Stats / Write / Read); every call recorded with logical call/return stamps at the API boundary; " +
 			"oracle: porcupine linearizability check against the sequential model (first non-empty non-null declaration wins and never changes; Get returns it, or * once all writers closed / the stream was cancelled without a declaration; a Get may not return while undeclared with writers open); non-trivial = >= 2 competing declarations or a Get overlapping a Set or the last Close; distinct by history description",
 		Assumptions: []string{"writers never call GetDataType between their own Open and Close (that would wait for itself)", "a porcupine timeout is reported as inconclusive"},
 		Technique:   "runtime monitoring: recorded concurrent history checked for linearizability (porcupine v1.3.0) against a sequential model, hook-injected yields",
@@ -148,6 +149,12 @@ func init() {
 				types := [][]string{{"json", "csv"}, {"str", "yaml", "json"}, {"", "xml", "toml"}, {"null", "a", "b"}, {"x", "y"}}[r.Intn(5)]
 				args, _ := json.Marshal(c02Args{Burst: 250, BurstTypes: types})
 				cases = append(cases, &proto.Case{ID: fmt.Sprintf("c02-burst-%d", i), Op: "c02.hist", Args: args, TimeoutMs: 120000})
+			}
+			// a declared type read back after ForceClose while other goroutines use the stream
+			nf := x.Pick(16, 400)
+			for i := 0; i < nf; i++ {
+				args, _ := json.Marshal(c02Args{Burst: 60, BurstKind: "forceclosed", BurstTypes: []string{"json", "str", "csv", "x"}})
+				cases = append(cases, &proto.Case{ID: fmt.Sprintf("c02-forceclosed-%d", i), Op: "c02.hist", Args: args, TimeoutMs: 120000})
 			}
 			x.RunAll(pool, cases)
 		},
